@@ -385,6 +385,101 @@ func c33DevAt(valid []byte, k int) verifmc.Deviation {
 	}
 }
 
+// c33PBFields splits a protobuf message into (field, wire type, payload of length-delimited fields);
+// ok=false when the framing is broken.
+func c33PBFields(b []byte, f func(field, wt int, payload []byte)) bool {
+	varint := func() (uint64, bool) {
+		var v uint64
+		for i := 0; i < 10 && len(b) > 0; i++ {
+			c := b[0]
+			b = b[1:]
+			v |= uint64(c&0x7f) << (7 * i)
+			if c < 0x80 {
+				return v, true
+			}
+		}
+		return 0, false
+	}
+	for len(b) > 0 {
+		tag, ok := varint()
+		if !ok {
+			return false
+		}
+		switch tag & 7 {
+		case 0:
+			if _, ok := varint(); !ok {
+				return false
+			}
+			f(int(tag>>3), 0, nil)
+		case 2:
+			n, ok := varint()
+			if !ok || n > uint64(len(b)) {
+				return false
+			}
+			f(int(tag>>3), 2, b[:n])
+			b = b[n:]
+		case 1:
+			if len(b) < 8 {
+				return false
+			}
+			b = b[8:]
+		case 5:
+			if len(b) < 4 {
+				return false
+			}
+			b = b[4:]
+		default:
+			return false
+		}
+	}
+	return true
+}
+
+// c33BodyEntryDeclaresMore: some BlockData.body entry (field 1 -> field 3) starts with a SCALE compact
+// length that declares more bytes than the entry holds.
+func c33BodyEntryDeclaresMore(msg []byte) bool {
+	found := false
+	c33PBFields(msg, func(field, wt int, bd []byte) {
+		if field != 1 || wt != 2 {
+			return
+		}
+		c33PBFields(bd, func(field, wt int, e []byte) {
+			if field != 3 || wt != 2 || len(e) == 0 {
+				return
+			}
+			var declared uint64
+			var width int
+			switch e[0] & 3 {
+			case 0:
+				declared, width = uint64(e[0]>>2), 1
+			case 1:
+				if len(e) < 2 {
+					return
+				}
+				declared, width = (uint64(e[0])|uint64(e[1])<<8)>>2, 2
+			case 2:
+				if len(e) < 4 {
+					return
+				}
+				declared, width = (uint64(e[0])|uint64(e[1])<<8|uint64(e[2])<<16|uint64(e[3])<<24)>>2, 4
+			default:
+				n := int(e[0]>>2) + 4
+				if n > 8 || len(e) < 1+n {
+					return
+				}
+				for i := 0; i < n; i++ {
+					declared |= uint64(e[1+i]) << (8 * i)
+				}
+				width = 1 + n
+			}
+			if declared > uint64(len(e)-width) {
+				found = true
+			}
+		})
+	})
+	return found
+}
+
 type c33Seg struct {
 	dec   int
 	valid *C33Valid // nil: all short byte strings
@@ -809,6 +904,11 @@ func c33AllocPhase(r *verifmc.Report, decs []C33Decoder, cfg C33Config, sp *c33S
 				cls := "input"
 				if strings.HasPrefix(in.shape, "crafted") {
 					cls = in.shape[strings.Index(in.shape, ":")+1:]
+				} else if d.Name == "BlockResponseMessage.Decode" && c33BodyEntryDeclaresMore(in.data) {
+					// the protobuf framing (as this input has it) hands the SCALE decoder a body entry whose
+					// compact length prefix declares more bytes than the entry holds: the same shape as a
+					// crafted SCALE length, reached through a changed protobuf length or tag byte
+					cls = "scale-bytes-len"
 				}
 				r.Violate(d.Name+":allocation-not-proportional-to-input:"+cls,
 					fmt.Sprintf("%s allocates %d bytes (minimum of two runs) decoding a %d-byte input (bound %d): %s; input %s",
